@@ -3,8 +3,10 @@
 package props
 
 import (
+	"bytes"
 	"fmt"
 	"math/big"
+	"sync"
 
 	"github.com/bytemare/secp256k1"
 	"github.com/bytemare/secp256k1/zz_verif/gen"
@@ -19,6 +21,12 @@ type c01Case struct {
 	K      string       `json:"k"` // hex; "nil" for a nil scalar
 	KClass string       `json:"k_class"`
 	K2     string       `json:"k2,omitempty"` // optional second multiplication chained on the result
+	// SMove: the *Scalar object passed to Multiply first held SMove.From, was used (Bits, a multiplication), and was
+	// then driven to K through one mutator. EMove: likewise for the receiver element (its target value replaces E).
+	SMove *mon.ScalarMove `json:"scalar_move,omitempty"`
+	EMove *mon.ElemMove   `json:"elem_move,omitempty"`
+	// Conc: a batch of independent multiplications executed simultaneously, one goroutine each, on objects they own.
+	Conc []c01Case `json:"concurrent,omitempty"`
 }
 
 func init() {
@@ -28,13 +36,15 @@ func init() {
 		Rule: "cases = (point value, projective representation, scalar): structured scalars (0,1,2,n-1,2^i,2^255|2^i,n-2^i,stored-form adjacent to One(),Montgomery-structured) on G; " +
 			"every pool point (O,±kG,[2^255]G,[(n±1)/2]G,phi(G),small-x,small-y,x near p,hashed,random) in affine/λ-scaled/(0:Y:0) representations x boundary scalars; " +
 			"PRNG cases with >=50% of scalars having bit 255 set. Oracle: affine double-and-add in math/big (plus literal k-fold sums for k<=64). " +
-			"non-trivial = k not in {0,1} and P != O; distinct by (point, representation, scalar[, second scalar]).",
+			"" +
+			"History cases: the scalar object (resp. the receiver) previously held another value, was used, and reached its value through each mutator of the API; concurrent batches: 8 goroutines multiply simultaneously on objects they own (no shared argument), each result judged against the oracle. " +
+			"non-trivial = k not in {0,1} and P != O; distinct by (point, representation, scalar[, second scalar], history).",
 		NewCase:  func() any { return &c01Case{} },
 		Generate: c01Generate,
 		Run:      c01Run,
 		Finish:   nil,
 		Require: func(string) map[string]int64 {
-			return map[string]int64{"k:bit255": 50, "k:nil": 1, "k=0": 1, "k=1": 1, "k=n-1": 1, "P=O": 5, "repr:scaled": 20, "repr:id-y": 3, "ksum<=64": 10, "bits:scalar-bit-seen-as-0-or-1": 512}
+			return map[string]int64{"k:bit255": 50, "k:nil": 1, "k=0": 1, "k=1": 1, "k=n-1": 1, "P=O": 5, "repr:scaled": 20, "repr:id-y": 3, "ksum<=64": 10, "scalar-history": 40, "elem-history": 40, "concurrent-batches": 4, "concurrent-multiplications": 32, "bits:scalar-bit-seen-as-0-or-1": 512}
 		},
 	})
 }
@@ -110,7 +120,38 @@ func c01Generate(c *mon.Ctx) {
 		}
 	}
 
-	// 4. PRNG cases
+	// 4. history cases: every scalar mutator and every element mutator, twice
+	hr := c.SharedRng("moves")
+
+	for rep := 0; rep < 2; rep++ {
+		for _, via := range mon.ScalarVias {
+			mv := mon.PlanScalarMove(via, hr)
+			pv := pool.NonInf[hr.Intn(len(pool.NonInf))]
+			e := mon.MkElemCase(pv, gen.DrawRepr(hr, false))
+			c.Structured(func() any { return &c01Case{E: e, K: mv.To, KClass: "history:" + mv.Via, SMove: &mv} })
+		}
+
+		for _, via := range mon.ElemVias {
+			mv := mon.PlanElemMove(via, hr)
+			k := gen.Draw(hr, n)
+			c.Structured(func() any { return &c01Case{K: fmt.Sprintf("%x", k.X), KClass: "elem-history:" + mv.Via, EMove: &mv} })
+		}
+	}
+
+	// 5. concurrent batches
+	for b := 0; b < c.N(8, 200); b++ {
+		batch := &c01Case{KClass: "concurrent"}
+
+		for g := 0; g < 8; g++ {
+			pv := gen.Fresh(hr)
+			k := gen.Draw(hr, n)
+			batch.Conc = append(batch.Conc, c01Case{E: mon.MkElemCase(pv, gen.DrawRepr(hr, false)), K: fmt.Sprintf("%x", k.X), KClass: k.Class})
+		}
+
+		c.Structured(func() any { return batch })
+	}
+
+	// 6. PRNG cases
 	c.Random(c.N(2000, 300000), func(r *gen.Rng) any {
 		var pv gen.PV
 		if r.Intn(2) == 0 {
@@ -144,10 +185,102 @@ func c01Generate(c *mon.Ctx) {
 	})
 }
 
+func c01RunConcurrent(c *mon.Ctx, cs *c01Case) {
+	type job struct {
+		e    *secp256k1.Element
+		s    *secp256k1.Scalar
+		want oracle.Pt
+		got  []byte
+		pan  any
+	}
+
+	jobs := make([]*job, len(cs.Conc))
+	for i := range cs.Conc {
+		sub := &cs.Conc[i]
+		jobs[i] = &job{e: sub.E.Build(), s: mon.Scal(mon.BigH(sub.K)), want: oracle.Mul(mon.BigH(sub.K), sub.E.P.Pt())}
+	}
+
+	c.Count("concurrent-batches")
+
+	start := make(chan struct{})
+
+	var wg sync.WaitGroup
+
+	for _, j := range jobs {
+		wg.Add(1)
+
+		go func(j *job) {
+			defer wg.Done()
+			defer func() { j.pan = recover() }()
+			<-start
+
+			for rep := 0; rep < 4; rep++ {
+				x := j.e.Copy().Multiply(j.s)
+				j.got = x.Encode()
+
+				if !bytes.Equal(j.got, oracle.EncC(j.want)) {
+					return
+				}
+			}
+		}(j)
+	}
+
+	close(start)
+	wg.Wait()
+
+	for i, j := range jobs {
+		c.Eval(4)
+		c.CountN("concurrent-multiplications", 4)
+
+		if j.pan != nil {
+			c.Fail(fmt.Sprintf("Multiply panicked when %d goroutines multiplied simultaneously on their own objects: %v", len(jobs), j.pan), "multiply-concurrent-panic", nil)
+			return
+		}
+
+		if !bytes.Equal(j.got, oracle.EncC(j.want)) {
+			c.Fail(fmt.Sprintf("[k]P wrong when %d goroutines multiply simultaneously on objects they own (job %d): Encode=%s want %s", len(jobs), i, mon.H(j.got), mon.H(oracle.EncC(j.want))), "multiply-concurrent-value", nil)
+			return
+		}
+	}
+
+	c.Seen(cs.Conc)
+}
+
 func c01Run(c *mon.Ctx, csAny any) {
 	cs := csAny.(*c01Case)
+
+	if len(cs.Conc) > 0 {
+		c01RunConcurrent(c, cs)
+		return
+	}
+
+	if cs.EMove != nil {
+		cs.E = mon.ElemCase{P: cs.EMove.To, R: mon.ReprCase{Kind: "moved:" + cs.EMove.Via, L: "1"}}
+	}
+
 	p := cs.E.P.Pt()
-	e := cs.E.Build()
+
+	var e *secp256k1.Element
+
+	if cs.EMove != nil {
+		c.Count("elem-history")
+
+		e = cs.EMove.From.Build()
+		e.Copy().Multiply(mon.Scal(big.NewInt(5))) // the old value takes part in a multiplication (on a copy and in place)
+		_ = e.Encode()
+
+		if pan, pv := mon.Call(func() { mon.ApplyElemMove(e, *cs.EMove) }); pan {
+			if m, ok := pv.(string); ok && len(m) > 8 && m[:8] == "harness:" {
+				panic(m)
+			}
+
+			c.Fail(fmt.Sprintf("mutator %s panicked: %v", cs.EMove.Via, pv), "multiply-history-panic", nil)
+
+			return
+		}
+	} else {
+		e = cs.E.Build()
+	}
 
 	c.Count("repr:" + cs.E.R.Kind)
 	c.Count("point:" + cs.E.P.Tag)
@@ -177,6 +310,25 @@ func c01Run(c *mon.Ctx, csAny any) {
 
 	k := mon.BigH(cs.K)
 	s := mon.Scal(k)
+
+	if cs.SMove != nil {
+		c.Count("scalar-history")
+
+		s = mon.Scal(mon.BigH(cs.SMove.From))
+		_ = s.Bits()
+		secp256k1.Base().Multiply(s) // the old value drives a multiplication
+
+		if pan, pv := mon.Call(func() { mon.ApplyScalarMove(s, *cs.SMove) }); pan {
+			if m, ok := pv.(string); ok && len(m) > 8 && m[:8] == "harness:" {
+				panic(m)
+			}
+
+			c.Fail(fmt.Sprintf("scalar mutator %s panicked: %v", cs.SMove.Via, pv), "multiply-history-panic", nil)
+
+			return
+		}
+	}
+
 	c.Eval(1)
 
 	switch {
@@ -225,7 +377,7 @@ func c01Run(c *mon.Ctx, csAny any) {
 		}
 
 		acc := secp256k1.NewElement()
-		base := cs.E.Build()
+		base := mon.ElemAffine(p)
 
 		for i := 0; i < kk; i++ {
 			acc.Add(base)
@@ -251,10 +403,10 @@ func c01Run(c *mon.Ctx, csAny any) {
 	}
 
 	if k.Cmp(big.NewInt(1)) > 0 && !p.IsInf() {
-		c.Seen(cs.E, cs.K, cs.K2)
+		c.Seen(cs.E, cs.K, cs.K2, cs.SMove, cs.EMove)
 	}
 
-	if c.WantSample() && k.BitLen() > 200 && !p.IsInf() {
+	if c.WantSample() && k.BitLen() > 200 && !p.IsInf() && cs.EMove == nil {
 		c.Sample(map[string]any{"case": cs, "expected_encode": mon.H(oracle.EncC(want)), "observed_encode": mon.H(cs.E.Build().Multiply(s).Encode())})
 	}
 }
